@@ -516,7 +516,7 @@ fn ob_c12_leaf_is_rooting(k: u8) {
 // ---------------------------------------------------------------------------------------------
 
 //@ob C17.unroot
-//@ props: C17 C08 C05
+//@ props: C17 C05
 //@ kind: complete
 //@ fns: src/token/mod.rs::Wildcard::unroot src/token/mod.rs::Wildcard::unroot<Span> src/token/mod.rs::LeafKind::unroot
 //@ pre: any leaf kind with a span (s, n) inside an expression of length <= isize::MAX; a rooted tree wildcard's span covers at least its leading `/` (n >= 1)
@@ -546,25 +546,23 @@ fn ob_c17_unroot(k: u8, s: usize, n: usize) {
 // C19: ownership conversions of leaves
 // ---------------------------------------------------------------------------------------------
 
-//@ob C19.owned.leaf
+//@ob C19.owned.literal
 //@ props: C19 C05
-//@ kind: bounded(literal text of 0..=2 ASCII bytes; all leaf kinds, case flag symbolic)
+//@ kind: bounded(literal text of 0..=2 ASCII bytes; case flag symbolic)
 //@ unwind: 6
 //@ fns: src/token/mod.rs::LeafKind::into_owned src/token/mod.rs::Literal::into_owned
-//@ pre: any leaf kind; for a literal any text of up to 2 ASCII bytes and any case flag
-//@ post: into_owned keeps the kind, the wildcard variant, the literal's text bytes and its case flag
-fn ob_c19_owned_leaf(k: u8, n: u8, b1: u8, b2: u8, flag: bool) {
-    vassume!(k < KINDS && n <= 2 && b1 < 128 && b2 < 128);
+//@ pre: a literal leaf with any text of up to 2 ASCII bytes and any case flag
+//@ post: into_owned keeps the kind, the literal's text bytes and its case flag, and the result owns its text
+fn ob_c19_owned_literal(n: u8, b1: u8, b2: u8, flag: bool) {
+    vassume!(n <= 2 && b1 < 128 && b2 < 128);
     let buf = [b1, b2];
     // SAFETY: ASCII bytes are valid UTF-8.
     let text = unsafe { core::str::from_utf8_unchecked(&buf[..n as usize]) };
-    let l = if k == 0 { LeafKind::Literal(Literal { text: Cow::Borrowed(text), is_case_insensitive: flag }) } else { leaf(k) };
-    vcover!(k == 0 && n == 2 && flag);
-    vcover!(k == 7);
-    let owned: LeafKind<'static> = l.into_owned();
-    match owned {
+    let l = LeafKind::Literal(Literal { text: Cow::Borrowed(text), is_case_insensitive: flag });
+    vcover!(n == 2 && flag);
+    vcover!(n == 0);
+    match l.into_owned() {
         LeafKind::Literal(lit) => {
-            assert!(k == 0, "C19 kind preserved");
             assert!(lit.is_case_insensitive() == flag, "C19 case flag preserved");
             let t = lit.text().as_bytes();
             assert!(t.len() == n as usize, "C19 text length preserved");
@@ -572,6 +570,23 @@ fn ob_c19_owned_leaf(k: u8, n: u8, b1: u8, b2: u8, flag: bool) {
             assert!(n < 2 || t[1] == b2, "C19 text preserved");
             assert!(matches!(lit.text, Cow::Owned(_)), "C19 the owned literal owns its text");
         },
+        _ => assert!(false, "C19 kind preserved"),
+    }
+}
+
+//@ob C19.owned.leaf
+//@ props: C19 C05
+//@ kind: complete
+//@ fns: src/token/mod.rs::LeafKind::into_owned
+//@ pre: any leaf kind other than a literal (seven enumerated)
+//@ post: into_owned keeps the kind, the wildcard variant and rootedness
+fn ob_c19_owned_leaf(k: u8) {
+    vassume!(k >= 1 && k < KINDS);
+    vcover!(k == 7);
+    vcover!(k == 3);
+    let owned: LeafKind<'static> = leaf(k).into_owned();
+    match owned {
+        LeafKind::Literal(_) => assert!(false, "C19 kind preserved"),
         LeafKind::Wildcard(Wildcard::One) => assert!(k == 1, "C19 kind preserved"),
         LeafKind::Wildcard(Wildcard::ZeroOrMore(Evaluation::Eager)) => assert!(k == 2, "C19 kind preserved"),
         LeafKind::Wildcard(Wildcard::ZeroOrMore(Evaluation::Lazy)) => assert!(k == 3, "C19 kind preserved"),
